@@ -16,7 +16,7 @@ def PList (ps : List (List Char × Nat)) : Prop := ∀ p ∈ ps, paramOk p.1 p.2
 theorem paramOk_unpack {c : List Char} {n : Nat} (h : paramOk c n = true) :
     strIsDigit c = true ∧ (∀ x ∈ c, x ≠ ';' ∧ x ≠ 'm' ∧ x ≠ '\n' ∧ x ≠ ESC ∧ x ≠ '\r') ∧ pyIntDigits c = some n ∧ n ≤ 255 := by
   simp only [paramOk, Bool.and_eq_true, List.all_eq_true, bne_iff_ne, ne_eq, beq_iff_eq, decide_eq_true_eq] at h
-  obtain ⟨⟨⟨h1, h2⟩, h3⟩, h4⟩ := h
+  obtain ⟨⟨⟨⟨h1, h2⟩, h3⟩, h4⟩, _⟩ := h
   exact ⟨h1, fun x hx => ⟨(h2 x hx).1.1.1.1, (h2 x hx).1.1.1.2, (h2 x hx).1.1.2, (h2 x hx).1.2, (h2 x hx).2⟩, h3, h4⟩
 
 theorem natStr_paramOk {n : Nat} (hn : n < 256) : paramOk (natStr n) n = true := by
@@ -106,15 +106,20 @@ theorem sgrCodes_plist (cfg : Cfg) (ps : List (List Char × Nat)) (h : PList ps)
     obtain ⟨p, hp, rfl⟩ := hw
     exact ((paramOk_unpack (h p hp)).2.1 c hc).1
 
+theorem paramOk_ascii {c : List Char} {n : Nat} (h : paramOk c n = true) : ∀ x ∈ c, isSgrParam x = true := by
+  simp only [paramOk, Bool.and_eq_true, List.all_eq_true] at h
+  intro x hx
+  have := h.2 x hx
+  simp [isSgrParam, this]
+
 theorem plist_body_ok (ps : List (List Char × Nat)) (h : PList ps) :
-    ∀ c ∈ joinWith ';' (ps.map (·.1)), c ≠ 'm' ∧ c ≠ '\n' := by
+    ∀ c ∈ joinWith ';' (ps.map (·.1)), isSgrParam c = true := by
   intro c hc
   rcases mem_joinWith hc with rfl | ⟨w, hw, hcw⟩
   · decide
   · simp only [List.mem_map] at hw
     obtain ⟨p, hp, rfl⟩ := hw
-    have := (paramOk_unpack (h p hp)).2.1 c hcw
-    exact ⟨this.2.1, this.2.2.1⟩
+    exact paramOk_ascii (h p hp) c hcw
 
 theorem plist_nonempty (ps : List (List Char × Nat)) (h : PList ps) : ∀ w ∈ ps.map (·.1), w ≠ [] := by
   intro w hw
